@@ -140,7 +140,7 @@ fn convolve(
                     xc_h(*self, x@, kernels@, filter as int, height as int, width as int, c as int, h as int, kw as int,
                         xc_c(*self, x@, kernels@, filter as int, height as int, width as int, c as int, kh as int, kw as int, 0.0f32))), //@ob xcorr.inv
     //@end
-    //@before /let _h = height \* self\.stride\.0 \+ h \* self\.dilation\.0;/
+    //@before /let _h = /
                                 broadcast use {f32_total};
                                 proof {
                                     f32_obeys();
